@@ -62,6 +62,12 @@ def items(b, tag):
             b.function('Function', 'read' + tag, [b.param(b.ty('String'), 'Memory', 'text' + tag)], [b.fattr('visibility', 'external')], b.block([b.expr_stmt(v('text' + tag))])),
             b.function('Function', 'write' + tag, [b.param(b.ty('String'), 'Memory', 'buf' + tag)], [b.fattr('visibility', 'external')],
                        b.block([b.expr_stmt(b.bin('Assign', v('buf' + tag), b.string('w')))]))], name='Mem' + tag),
+        # a loop WITHOUT a condition (`for (;;)`) in one item: whatever a detector collects per loop, one loop that lacks a part says nothing
+        # about the loops of another item
+        'library_conditionless_for': lambda: fam.contract_with(b, [b.function('Function', 'spin' + tag, [b.param(b.index(b.ty('Uint', 256)), 'Memory', 'arr' + tag)], [b.fattr('visibility', 'internal')],
+                                                                               b.block([b.for_(None, None, None, b.block([b.break_()])),
+                                                                                        b.for_(b.var_stmt(b.ty('Uint', 256), 'i', n(0)), None, b.expr_stmt(b.un('PreIncrement', v('i'))), b.block([b.break_()]))]))],
+                                                                  kind='Library', name='Spin' + tag),
         'free_function': lambda: b.supart(b.function('Function', 'free' + tag, [b.param(b.ty('String'), 'Memory', 's')], [],
                                                      b.block([b.expr_stmt(b.bin('Subtract', v('a'), n(1))), req(v('c'), b.string('m'))]))),
         # a free function and a file-level constant with an ERC20 operation / arithmetic in them: top-level items that are no contract-like
